@@ -293,7 +293,12 @@ func checkDecoded(s []byte, directed bool, adj [][]bool, full bool) *vk.Failure 
 				return vk.Failf("decode-to", "To(%d)=%v want %v (n=%d, %q)", i, got, wantTo, n, quoteShort(s))
 			}
 		}
-		for j := 0; j < n; j += step {
+		// pair accessors: all pairs for small orders, a rotating sample of columns otherwise
+		jstep := 1
+		if n > 32 {
+			jstep = n / 16
+		}
+		for j := (i * 7) % jstep; j < n; j += jstep {
 			between := adj[i][j] || adj[j][i]
 			if got := g.HasEdgeBetween(int64(i), int64(j)); got != between {
 				return vk.Failf("decode-has-edge-between", "HasEdgeBetween(%d,%d)=%v want %v (n=%d, %q)", i, j, got, between, n, quoteShort(s))
@@ -579,7 +584,7 @@ func TestG6RoundTrip(t *testing.T) {
 		}
 	}
 	vk.Enumerate(t, "g6-rt", len(cases), func(i int) g6Case { return cases[i] }, checkG6RoundTrip)
-	vk.Run(t, "g6-rt", vk.Opts{Quick: 6000, Thorough: 120000, NoCrumb: true}, drawG6, checkG6RoundTrip)
+	vk.Run(t, "g6-rt", vk.Opts{Quick: 4000, Thorough: 100000, NoCrumb: true}, drawG6, checkG6RoundTrip)
 }
 
 // ---- totality ------------------------------------------------------------------
@@ -805,5 +810,5 @@ func TestG6Totality(t *testing.T) {
 		}
 	}
 	vk.Enumerate(t, "g6-total", len(cases), func(i int) g6BytesCase { return cases[i] }, checkG6Bytes)
-	vk.Run(t, "g6-total", vk.Opts{Quick: 40000, Thorough: 800000, NoCrumb: true}, drawG6Bytes, checkG6Bytes)
+	vk.Run(t, "g6-total", vk.Opts{Quick: 30000, Thorough: 600000, NoCrumb: true}, drawG6Bytes, checkG6Bytes)
 }
